@@ -31,6 +31,7 @@ def run(ctx):
     ctx.each(r03b, ctx, repo)
     ctx.each(r03c, ctx, repo)
     ctx.each(r03d, ctx, repo)
+    ctx.each(discretise.snap_tolerance_rule, ctx, repo, "R03e", [("project", "_n_steps")])
 
 
 def unit_consts_in_test(test, pv):
